@@ -28,6 +28,9 @@ struct Hooks
     long abort_map_call = 0;
     long abort_map_seen = 0;
     bool abort_map_fired = false;
+    // arguments the library handed to SimTimeMap::backward (tau, T), recorded when asked for
+    bool record_backward = false;
+    std::vector<std::pair<double, double>> backward_args;
 };
 inline Hooks &hooks()
 {
@@ -93,6 +96,7 @@ struct SimTimeMap
         {
         case 0: return a * std::exp(tau);
         case 1: return a * (tau > 30 ? tau : std::log1p(std::exp(tau)));
+        case 3: return 0.5 * a + tau * tau; // a map with a restricted range: durations below a/2 have no pre-image
         default: return a * tau;
         }
     }
@@ -104,6 +108,7 @@ struct SimTimeMap
         {
         case 0: return std::log(T / a);
         case 1: { double y = T / a; return y > 30 ? y : std::log(std::expm1(y)); }
+        case 3: return std::sqrt(T - 0.5 * a); // NaN below the range
         default: return T / a;
         }
     }
@@ -111,9 +116,11 @@ struct SimTimeMap
     {
         check();
         map_yield("backward");
+        if (hooks().record_backward) { NoRace g; hooks().backward_args.push_back({tau, T}); }
         switch (kind)
         {
-        case 0: return gradT * (a * std::exp(tau));
+        case 3: return gradT * 2.0 * tau;
+        case 0: return gradT * T; // dT/dtau = T for the exponential map: uses the duration the library passes in
         case 1: return gradT * a * (1.0 / (1.0 + std::exp(-tau)));
         default: return gradT * a;
         }
@@ -125,6 +132,7 @@ struct SimTimeMap
         {
         case 0: return a * std::exp(tau);
         case 1: return a / (1.0 + std::exp(-tau));
+        case 3: return 2.0 * tau;
         default: return a;
         }
     }
